@@ -49,6 +49,12 @@ Props/C17.vos Props/C17.vok Props/C17.required_vos: Props/C17.v Base/Tactics.vos
 Proofs/ExecP.vo Proofs/ExecP.glob Proofs/ExecP.v.beautified Proofs/ExecP.required_vo: Proofs/ExecP.v Base/Tactics.vo Base/Prelude.vo Base/Fixed.vo Base/FMap.vo Model/Types.vo Model/Env.vo Model/Registry.vo Model/Cw20.vo Model/Reward.vo Model/Dispatcher.vo Model/Hub.vo Model/Exec.vo
 Proofs/ExecP.vio: Proofs/ExecP.v Base/Tactics.vio Base/Prelude.vio Base/Fixed.vio Base/FMap.vio Model/Types.vio Model/Env.vio Model/Registry.vio Model/Cw20.vio Model/Reward.vio Model/Dispatcher.vio Model/Hub.vio Model/Exec.vio
 Proofs/ExecP.vos Proofs/ExecP.vok Proofs/ExecP.required_vos: Proofs/ExecP.v Base/Tactics.vos Base/Prelude.vos Base/Fixed.vos Base/FMap.vos Model/Types.vos Model/Env.vos Model/Registry.vos Model/Cw20.vos Model/Reward.vos Model/Dispatcher.vos Model/Hub.vos Model/Exec.vos
+Proofs/Hist.vo Proofs/Hist.glob Proofs/Hist.v.beautified Proofs/Hist.required_vo: Proofs/Hist.v Base/Tactics.vo Base/Prelude.vo Base/Fixed.vo Base/FMap.vo Model/Types.vo Model/Env.vo Model/Registry.vo Model/Cw20.vo Model/Reward.vo Model/Dispatcher.vo Model/Hub.vo Model/Exec.vo Proofs/ExecP.vo
+Proofs/Hist.vio: Proofs/Hist.v Base/Tactics.vio Base/Prelude.vio Base/Fixed.vio Base/FMap.vio Model/Types.vio Model/Env.vio Model/Registry.vio Model/Cw20.vio Model/Reward.vio Model/Dispatcher.vio Model/Hub.vio Model/Exec.vio Proofs/ExecP.vio
+Proofs/Hist.vos Proofs/Hist.vok Proofs/Hist.required_vos: Proofs/Hist.v Base/Tactics.vos Base/Prelude.vos Base/Fixed.vos Base/FMap.vos Model/Types.vos Model/Env.vos Model/Registry.vos Model/Cw20.vos Model/Reward.vos Model/Dispatcher.vos Model/Hub.vos Model/Exec.vos Proofs/ExecP.vos
+Proofs/Inv.vo Proofs/Inv.glob Proofs/Inv.v.beautified Proofs/Inv.required_vo: Proofs/Inv.v Base/Tactics.vo Base/Prelude.vo Base/Fixed.vo Base/FMap.vo Model/Types.vo Model/Env.vo Model/Registry.vo Model/Cw20.vo Model/Reward.vo Model/Dispatcher.vo Model/Hub.vo Model/Exec.vo
+Proofs/Inv.vio: Proofs/Inv.v Base/Tactics.vio Base/Prelude.vio Base/Fixed.vio Base/FMap.vio Model/Types.vio Model/Env.vio Model/Registry.vio Model/Cw20.vio Model/Reward.vio Model/Dispatcher.vio Model/Hub.vio Model/Exec.vio
+Proofs/Inv.vos Proofs/Inv.vok Proofs/Inv.required_vos: Proofs/Inv.v Base/Tactics.vos Base/Prelude.vos Base/Fixed.vos Base/FMap.vos Model/Types.vos Model/Env.vos Model/Registry.vos Model/Cw20.vos Model/Reward.vos Model/Dispatcher.vos Model/Hub.vos Model/Exec.vos
 Proofs/HubFrame.vo Proofs/HubFrame.glob Proofs/HubFrame.v.beautified Proofs/HubFrame.required_vo: Proofs/HubFrame.v Base/Tactics.vo Base/Prelude.vo Base/Fixed.vo Base/FMap.vo Model/Types.vo Model/Env.vo Model/Registry.vo Model/Cw20.vo Model/Hub.vo
 Proofs/HubFrame.vio: Proofs/HubFrame.v Base/Tactics.vio Base/Prelude.vio Base/Fixed.vio Base/FMap.vio Model/Types.vio Model/Env.vio Model/Registry.vio Model/Cw20.vio Model/Hub.vio
 Proofs/HubFrame.vos Proofs/HubFrame.vok Proofs/HubFrame.required_vos: Proofs/HubFrame.v Base/Tactics.vos Base/Prelude.vos Base/Fixed.vos Base/FMap.vos Model/Types.vos Model/Env.vos Model/Registry.vos Model/Cw20.vos Model/Hub.vos
